@@ -29,6 +29,8 @@ def run(ck):
     progs += history.derived_programs(ck.seed, 50 if q else 1000, tids=tids)
     # (d) every kind of call after a random warm-up of other calls = the same call in a brand-new interpreter, bit for bit
     progs += history.fresh_programs(ck.seed, 16 if q else 250, tids=tids)
+    # (e) free-running threads (switch interval 1 microsecond) on shared arrays: every result = the sequential one, bit for bit
+    progs += history.stress_programs(ck.seed, 8 if q else 60, tids=tids)
     rng = gen.rng_for(ck.seed, "c15")
     nsched = 0
     for pname, threads in (("ProgA", "{1, 2}"), ("ProgB", "{1, 2, 3}")):
